@@ -8,6 +8,7 @@ CONSTANTS
   AttrStride = 2
   TripleStride = 3
   ValueStride = 20
+  PointStride = 2
   ShapeFrom = "named dims"
 CONSTRAINT Export
 INVARIANT ImplRefinesReq
@@ -17,6 +18,7 @@ INVARIANT LawBoxIsCentreRule
 INVARIANT LawCellsMonotone
 INVARIANT LawInIsTouched
 INVARIANT LawSameBins
+INVARIANT LawDense
 INVARIANT LawSatisfiable
 PROPERTY Terminates
 CHECK_DEADLOCK FALSE
